@@ -140,7 +140,7 @@ def write_object(cls, le, machine, target_name, target_data, relocs, symbols, re
 
 # ---------------------------------------------------------------- section-less executables with a dynamic segment (C09)
 PT_LOAD, PT_DYNAMIC = 1, 2
-DT = dict(DT_NULL=0, DT_NEEDED=1, DT_PLTRELSZ=2, DT_HASH=4, DT_STRTAB=5, DT_SYMTAB=6, DT_RELA=7, DT_RELASZ=8, DT_RELAENT=9, DT_STRSZ=10,
+DT = dict(DT_NULL=0, DT_NEEDED=1, DT_PLTRELSZ=2, DT_HASH=4, DT_DEBUG=21, DT_STRTAB=5, DT_SYMTAB=6, DT_RELA=7, DT_RELASZ=8, DT_RELAENT=9, DT_STRSZ=10,
           DT_SYMENT=11, DT_SONAME=14, DT_RPATH=15, DT_REL=17, DT_RELSZ=18, DT_RELENT=19, DT_PLTREL=20, DT_JMPREL=23, DT_RUNPATH=29,
           DT_RELRSZ=35, DT_RELR=36, DT_RELRENT=37, DT_GNU_HASH=0x6ffffef5)
 
@@ -152,18 +152,24 @@ def _phdr(cls, le, typ, off, vaddr, filesz, flags=4):
     return struct.pack(e + 'IIIIIIII', typ, off, vaddr, vaddr, filesz, filesz, flags, 8)
 
 
-def write_dynamic_exec(cls, le, machine, blobs, tags, base=0x10000):
-    """ET_DYN image without section headers: [Ehdr | 2 Phdrs | blobs... | dynamic array]; one PT_LOAD maps the whole
-    file at `base`, PT_DYNAMIC designates the dynamic array.  blobs: [(key, bytes)]; tags: [(tag name, value or
-    ('ptr', key) for the virtual address of a blob)].  Returns (image, {key: file offset})."""
+def write_dynamic_exec(cls, le, machine, blobs, tags, base=0x10000, split=None):
+    """ET_DYN image without section headers: [Ehdr | Phdrs | blobs... | dynamic array]; one PT_LOAD maps the whole
+    file at `base` -- or, with split=k, two PT_LOADs: the first maps the headers and the first k blobs at `base`, the second
+    the remaining blobs and the dynamic array at another address bias -- and PT_DYNAMIC designates the dynamic array.
+    blobs: [(key, bytes)]; tags: [(tag name, value or ('ptr', key) for the virtual address of a blob)].  Returns
+    (image, {key: file offset, '@' + key: virtual address})."""
     e = '<' if le else '>'
     hsz, psz = (64, 56) if cls == 64 else (52, 32)
-    pos = hsz + 2 * psz
+    nph = 2 if split is None else 3
+    pos = hsz + nph * psz
     offs, body = {}, b''
-    for k, d in blobs:
+    split_off = None
+    for i, (k, d) in enumerate(blobs):
         pad = (-pos) % 8
         body += b'\x00' * pad
         pos += pad
+        if split is not None and i == split:
+            split_off = pos
         offs[k] = pos
         body += d
         pos += len(d)
@@ -171,15 +177,27 @@ def write_dynamic_exec(cls, le, machine, blobs, tags, base=0x10000):
     body += b'\x00' * pad
     pos += pad
     dyn_off = pos
+    if split is not None and split_off is None:
+        split_off = dyn_off
+    bias2 = 0x200000
+
+    def vaddr(o):
+        return base + o if split_off is None or o < split_off else base + bias2 + o
+    for k, _d in blobs:
+        offs['@' + k] = vaddr(offs[k])
     dyn = b''
     for t, v in tags:
-        val = base + offs[v[1]] if isinstance(v, tuple) else v
+        val = offs['@' + v[1]] if isinstance(v, tuple) else v
         dyn += struct.pack(e + ('qQ' if cls == 64 else 'iI'), DT[t] if DT[t] < 2 ** 31 else DT[t] - (2 ** 64 if cls == 64 else 2 ** 32), val)
     total = dyn_off + len(dyn)
     ident = b'\x7fELF' + bytes([1 if cls == 32 else 2, 1 if le else 2, 1, 0]) + b'\x00' * 8
     if cls == 64:
-        eh = ident + struct.pack(e + 'HHIQQQIHHHHHH', 3, machine, 1, 0, hsz, 0, 0, 64, 56, 2, 64, 0, 0)
+        eh = ident + struct.pack(e + 'HHIQQQIHHHHHH', 3, machine, 1, 0, hsz, 0, 0, 64, 56, nph, 64, 0, 0)
     else:
-        eh = ident + struct.pack(e + 'HHIIIIIHHHHHH', 3, machine, 1, 0, hsz, 0, 0, 52, 32, 2, 40, 0, 0)
-    ph = _phdr(cls, le, PT_LOAD, 0, base, total, 5) + _phdr(cls, le, PT_DYNAMIC, dyn_off, base + dyn_off, len(dyn), 6)
+        eh = ident + struct.pack(e + 'HHIIIIIHHHHHH', 3, machine, 1, 0, hsz, 0, 0, 52, 32, nph, 40, 0, 0)
+    if split_off is None:
+        ph = _phdr(cls, le, PT_LOAD, 0, base, total, 5)
+    else:
+        ph = _phdr(cls, le, PT_LOAD, 0, base, split_off, 5) + _phdr(cls, le, PT_LOAD, split_off, vaddr(split_off), total - split_off, 6)
+    ph += _phdr(cls, le, PT_DYNAMIC, dyn_off, vaddr(dyn_off), len(dyn), 6)
     return eh + ph + body + dyn, offs
